@@ -10,12 +10,12 @@ pub static DEF: CheckDef = CheckDef {
     id: "C11",
     run,
     replay,
-    rule: "every supported header combination (7 cartridge types x 12 ROM-size codes x 6 RAM-size codes = 504 configurations, each loaded with Core::from_rom_file from a sparse in-memory file of the declared size) x banking-register states (all register-edge values of bank-low x upper x mode, reached by guest writes; plus generated write histories) x every one of the 65536 addresses x {byte read, word read, byte write, word write, stack-order word write} through the five bus helpers, plus OAM DMA from all 256 source pages and the instruction-fetch view of every region. File lengths: for 4 cartridge types x 6 ROM-size codes, files of 16 lengths around the declared size (exact, longer, one byte / half a page / one page / several pages / almost a bank / a whole bank short, half the size) go through the loader main() uses; whatever it accepts counts as a loadable file, and then every bank is selected and read across its whole window (a mapping reaching past the end of the file faults there). The oracle is survival: a worker that dies by signal/abort, or a Rust panic, is a violation and the progress counter names the access. Non-trivial = distinct (configuration, banking state, access kind) sweeps, each of 65536 addresses.",
+    rule: "every supported header combination (7 cartridge types x 12 ROM-size codes x 6 RAM-size codes = 504 configurations, each loaded with Core::from_rom_file from a sparse in-memory file of the declared size) x banking-register states (all register-edge values of bank-low x upper x mode, reached by guest writes; plus generated write histories) x every one of the 65536 addresses x {byte read, word read, byte write, word write, stack-order word write} through the five bus helpers, plus OAM DMA from all 256 source pages and the instruction-fetch view of every region. Device registers: proptest histories of up to 59 stores to 0xFF00-0xFF7F / 0xFFFF (byte and word; values biased to those that arm the devices) interleaved with time passing and register reads, then every listed register written with every value of a small set. File lengths: for 4 cartridge types x 6 ROM-size codes, files of 16 lengths around the declared size (exact, longer, one byte / half a page / one page / several pages / almost a bank / a whole bank short, half the size) go through the loader main() uses; whatever it accepts counts as a loadable file, and then every bank is selected and read across its whole window (a mapping reaching past the end of the file faults there). The oracle is survival: a worker that dies by signal/abort, or a Rust panic, is a violation and the progress counter names the access. Non-trivial = distinct (configuration, banking state, access kind) sweeps, each of 65536 addresses.",
     assumptions: &[
         "builds with overflow checks and debug assertions on (harness release profile sets both)",
         "the test-only constructor Core::with_code_block (4 KiB work RAM) is not a loadable ROM file and is out of scope",
     ],
-    required_classes: &["read", "word-read", "write", "word-write", "push-word", "dma", "fetch-view", "no-ram", "ram-2k", "bank-beyond-size", "short-file-rejected", "full-file-loaded"],
+    required_classes: &["read", "word-read", "write", "word-write", "push-word", "dma", "fetch-view", "no-ram", "ram-2k", "bank-beyond-size", "short-file-rejected", "full-file-loaded", "io-register-history"],
     exhaustive: false,
 };
 
@@ -119,6 +119,41 @@ fn file_length_layer(rec: &mut Rec) {
             }
         }
     }
+}
+
+/// Device registers are guest-controlled state too: histories of stores to 0xFF00-0xFF7F /
+/// 0xFFFF (values biased to the ones that arm the devices: TIMA = 0xFF, TAC 4-7, STAT enables,
+/// LYC = LY, DMA pages) interleaved with time passing, then every register read and written
+/// once more with every value of a small set. Survival is the oracle.
+fn io_history(m: &mut i::M, ops: &[(u8, u8, u8, u16)], rec: &mut Rec) -> Result<(), String> {
+    const REGS: [u8; 24] = [0x00, 0x01, 0x02, 0x04, 0x05, 0x06, 0x07, 0x0f, 0x40, 0x41, 0x42, 0x43, 0x44, 0x45, 0x46, 0x47, 0x48, 0x49, 0x4a, 0x4b, 0xff, 0x10, 0x26, 0x7f];
+    const VALS: [u8; 12] = [0xff, 0x00, 0x04, 0x05, 0x06, 0x07, 0x80, 0x40, 0x20, 0xfe, 0x01, 0x91];
+    guarded(|| {
+        for (k, (kind, reg, v, n)) in ops.iter().enumerate() {
+            rec.progress(k as u64);
+            let addr = 0xff00u16 | if kind & 8 != 0 { *reg as u16 } else { REGS[*reg as usize % REGS.len()] as u16 };
+            let val = if kind & 16 != 0 { *v } else { VALS[*v as usize % VALS.len()] };
+            match kind % 4 {
+                0 | 1 => m.write(addr, val),
+                2 => m.run_clocks(4 * (1 + *n as usize % 20000)),
+                _ => {
+                    m.write_word(addr, (val as u16) << 8 | *n & 0xff);
+                }
+            }
+            if k % 7 == 6 {
+                for r in REGS {
+                    m.read(0xff00 | r as u16);
+                }
+            }
+        }
+        for r in REGS {
+            for v in VALS {
+                m.write(0xff00 | r as u16, v);
+                m.read_word(0xff00 | r as u16);
+                m.run_clocks(4);
+            }
+        }
+    })
 }
 
 fn bank_states(quick: bool) -> Vec<Vec<(u16, u8)>> {
@@ -242,6 +277,7 @@ fn run_config(rec: &mut Rec, cfg: (u8, u8, u8), states: &[Vec<(u16, u8)>], phase
 }
 
 fn run(rec: &mut Rec) {
+    use proptest::prelude::*;
     let quick = rec.ctx.tier == Tier::Quick;
     let states = bank_states(quick);
     let mut configs = Vec::new();
@@ -267,10 +303,35 @@ fn run(rec: &mut Rec) {
         run_config(rec, *cfg, &sel, &phases);
         rec.sample(|| case(*cfg, &sel[sel.len() / 2], "read"));
     }
+    // device-register histories
+    {
+        let cases = rec.ctx.tier.pick(150u32, 20_000);
+        let strat = prop::collection::vec((any::<u8>(), any::<u8>(), any::<u8>(), any::<u16>()), 1..60);
+        fn ijson(v: &Vec<(u8, u8, u8, u16)>) -> Value {
+            json!({"kind": "io-history", "ops": v})
+        }
+        let cell = std::cell::RefCell::new(make(0x03, 0x02, 0x03));
+        run_generated(rec, "iohist", cases, strat, ijson, |ops, rec, counting| {
+            let mut m = cell.borrow_mut();
+            m.reset_devices();
+            if counting {
+                rec.current(&ijson(ops).to_string());
+                rec.eval(ops.len() as u64 + 24 * 12);
+                rec.class("io-register-history", 1);
+                rec.nontrivial(fnv(format!("io{:?}", ops).as_bytes()));
+            }
+            match io_history(&mut m, ops, rec) {
+                Ok(()) => Ok(()),
+                Err(msg) => {
+                    *m = make(0x03, 0x02, 0x03);
+                    Err(Fail::new("panic-io-history", format!("a history of device-register stores and time panicked: {}", msg)))
+                }
+            }
+        });
+    }
     // files shorter and longer than they declare, through the loader
     file_length_layer(rec);
     // generated write histories over the whole address space, then read sweeps
-    use proptest::prelude::*;
     let cases = rec.ctx.tier.pick(6u32, 200);
     let strat = (0usize..504, prop::collection::vec((any::<u16>(), any::<u8>(), any::<bool>()), 1..200));
     fn hjson(v: &(usize, Vec<(u16, u8, bool)>)) -> Value {
@@ -328,6 +389,16 @@ fn replay(case: &Value, rec: &mut Rec) {
                 configs.push((t, rc, rac));
             }
         }
+    }
+    if case.get("kind").and_then(|k| k.as_str()) == Some("io-history") {
+        let ops: Vec<(u8, u8, u8, u16)> = case.get("ops").and_then(|w| serde_json::from_value(w.clone()).ok()).unwrap_or_default();
+        let mut m = make(0x03, 0x02, 0x03);
+        rec.current(&case.to_string());
+        rec.eval(1);
+        if let Err(msg) = io_history(&mut m, &ops, rec) {
+            rec.violation("panic-io-history", case.clone(), msg);
+        }
+        return;
     }
     if case.get("kind").and_then(|k| k.as_str()) == Some("file-length") {
         let g = |k: &str| case.get(k).and_then(|v| v.as_u64()).unwrap_or(0);
